@@ -592,11 +592,39 @@ func (s *scope) createInstance(descriptor *Descriptor) (any, error) {
 				regKey = reg.Key
 			}
 
+			// The descriptor registered for this very field: it carries the
+			// identity (type, name or group member) the value is stored under
+			var regDescriptor *Descriptor
+			for _, output := range s.rootProvider.outputs[descriptor.registration] {
+				if output.resultFieldName == reg.Name {
+					regDescriptor = output
+					break
+				}
+			}
+
+			if regDescriptor != nil {
+				if regDescriptor == descriptor {
+					primaryService = value
+				}
+
+				key := instanceKey{
+					Type:  regDescriptor.Type,
+					Key:   regDescriptor.Key,
+					Group: regDescriptor.Group,
+				}
+
+				if err := s.setInstance(regDescriptor, key, value); err != nil {
+					setErr = err
+				}
+
+				continue
+			}
+
 			if reg.Type == descriptor.Type && regKey == descriptor.Key {
 				primaryService = value
 			}
 
-			regDescriptor := s.rootProvider.findDescriptor(reg.Type, regKey)
+			regDescriptor = s.rootProvider.findDescriptor(reg.Type, regKey)
 			if regDescriptor == nil {
 				return nil, &ResolutionError{
 					ServiceType: reg.Type,
@@ -640,8 +668,20 @@ func (s *scope) createInstance(descriptor *Descriptor) (any, error) {
 
 			value := results[ret.Index].Interface()
 
-			// Find the descriptor for this return type
-			serviceDescriptor := s.rootProvider.findDescriptor(ret.Type, nil)
+			// Find the descriptor registered for this return value (it may
+			// carry a name or be a group member)
+			var serviceDescriptor *Descriptor
+			for _, output := range s.rootProvider.outputs[descriptor.registration] {
+				if output.MultiReturnIndex == ret.Index {
+					serviceDescriptor = output
+					break
+				}
+			}
+
+			if serviceDescriptor == nil {
+				serviceDescriptor = s.rootProvider.findDescriptor(ret.Type, nil)
+			}
+
 			if serviceDescriptor == nil {
 				return nil, &ResolutionError{
 					ServiceType: ret.Type,
